@@ -20,7 +20,7 @@ Literal, total, executable mirror of
 External calls are parameters (`Ext`): `Timestamp::parse` ∘ `fmt_timestamp` (property C14 owns them).
 Tracks /repo at c575458 (integers: `parse_integer`, since 7ec6a52; text: CR written as `&#13;`, since 7fbc5bc;
 character data = all text pieces and CDATA sections of the element, since c575458; character data outside the
-document element is refused by `read_event`, which keeps the nesting depth, since 4f52948).
+document element is refused by `read_event`, which keeps the nesting depth, since d51737b).
 The lookahead state `peeked` / `next_slot` of `Deserializer` is the head of the remaining event list here:
 `peek_event` = look at the head, `consume_peeked` / `next_event` = drop it; `Empty` is expanded by `deEvents`.
 -/
@@ -37,7 +37,7 @@ inductive DeErr where
 
 /-- what `Deserializer::read_event` hands out (`DeEvent`), plus `bad e` = `read_event` returned the error `e` at
 this point: `DeError::InvalidXml` when the tokeniser failed, `DeError::InvalidContent` for character data outside
-the document element (since 4f52948). End of list = `DeEvent::Eof` (quick-xml keeps answering `Eof`).
+the document element (since d51737b). End of list = `DeEvent::Eof` (quick-xml keeps answering `Eof`).
 `rest` of a start tag = the raw bytes after the element name (attributes), which the deserialiser never looks at
 and the serialiser uses for ` xmlns="…"`. -/
 inductive Ev where
@@ -709,7 +709,7 @@ def tokenize (doc : Bytes) : List QEv := tokLoop (doc.length + 1) (stripBom doc)
 /-- `Deserializer::read_event` iterated: skip comments, PIs, declarations; expand `Empty` through `next_slot`.
 `depth` is the field of the same name: the number of elements open at the reader's position (`Start` +1, `End` −1
 saturating, `Empty` ±0). Outside the document element (`depth == 0`) character data other than white space
-(space, tab, CR, LF) and every CDATA section make `read_event` return `DeError::InvalidContent` (since 4f52948;
+(space, tab, CR, LF) and every CDATA section make `read_event` return `DeError::InvalidContent` (since d51737b;
 before, `expect_start` / `expect_eof` / `for_each_element` skipped them: finding F-xml-6, fixed). An error ends
 the run: every caller propagates it. -/
 def deEventsAt : Nat → List QEv → List Ev
